@@ -19,6 +19,9 @@ CHECKS.update({
              text="StaleNeverServed is model-checked on the design; schedules that park a query across a complete reload (purge) and then run fresh queries are replayed on the real handler with the LRU enabled; TLC rejects any response, hit or miss, that carries a generation older than allowed.",
              note=SERVE_NOTE + " The cache-invisibility half (same response with and without cache) is checked by the differential driver described in DESIGN.md 5.5.", ref="5.5"),
 })
+CHECKS["C14"] = dict(cat="model_checking", tech="TLC model checking of IterPool.tla (lock/channel discipline, deadlock freedom) and Serve.tla + randomised stress of the real code under the Go race detector and a watchdog + ServeObs trace validation",
+    text="The lock and channel discipline of the iterator pool and of reload/serve is model-checked for deadlock freedom and lockset discipline; the real code is stressed (query workers x partial/full reloads x stats reporter x shutdown) on the instrumented backend and on real CDB / RocksDB v1 / v2 under the race detector, plus a hot (maximum-throughput) stress that counts touches of a closed backend; verdict = race reports, hangs, crashes.",
+    note="The race detector and the stress only see executed schedules: absence of a report is not a proof; bounded models (2-3 getters, pool of 2-3).", ref="5.6")
 NA = {}
 props = [json.loads(l)["id"] for l in open(os.path.join(V, "properties.jsonl"))]
 m = {
